@@ -99,7 +99,7 @@ def resolve_shared(P, f, expr, at_node, depth=0):
             c = f.owner_cls
             for k in P.mro(c):
                 v = k.attrs.get(expr.attr)
-                if v is not None and (isinstance(v, (ast.List, ast.Dict, ast.Set)) or
+                if v is not None and (isinstance(v, (ast.List, ast.Dict, ast.Set, ast.ListComp, ast.DictComp, ast.SetComp)) or
                                       (isinstance(v, ast.Call) and (dotted(v.func) or '') in MUTABLE_CTORS)):
                     if not _assigned_on_instances(P, k, expr.attr):
                         return f'classattr:{k.fq}.{expr.attr}'
@@ -170,13 +170,68 @@ def shared_writes(P, funcs=None):
                         if r and not r.startswith(('class:', 'module:')):
                             out.append(dict(func=f, node=n, target=r, kind='item-del'))
             elif isinstance(n, ast.Call) and isinstance(n.func, ast.Attribute) and n.func.attr in MUTATORS:
-                r = resolve_shared(P, f, n.func.value, cfgnode()) if isinstance(n.func.value, (ast.Name, ast.Attribute)) else None
+                recv = n.func.value
+                while isinstance(recv, ast.Subscript):
+                    recv = recv.value      # self._hooks[name].append(...) mutates what self._hooks holds
+                r = resolve_shared(P, f, recv, cfgnode()) if isinstance(recv, (ast.Name, ast.Attribute)) else None
                 if r and not r.startswith(('class:', 'module:')):
                     out.append(dict(func=f, node=n, target=r, kind=f'call:{n.func.attr}'))
             elif isinstance(n, ast.Call) and isinstance(n.func, ast.Name) and n.func.id == 'setattr' and len(n.args) == 3:
                 r = resolve_shared(P, f, n.args[0], cfgnode()) if isinstance(n.args[0], (ast.Name, ast.Attribute)) else None
                 if r and r.startswith(('class:', 'module:')):
                     out.append(dict(func=f, node=n, target=f'{r}.{short(n.args[1], 30)}', kind='attr-assign'))
+    return out
+
+
+CACHE_DECOS = {'lru_cache', 'cache', 'functools.lru_cache', 'functools.cache', 'cached', 'memoize'}
+REQUEST_PATH_APP_METHODS = {'wsgi', '__call__', '_handle', '_cast', 'default_error_handler', 'handler', 'to_route', 'emit'}
+
+
+def extra_shared_writes(P, funcs):
+    """three more kinds of writes to state that outlives the request:
+       memo          a function wrapped in functools.lru_cache / cache (results - and arguments - are kept process-wide)
+       config-object attribute / item store on an object taken out of a configuration mapping (errors_map responses ...)
+       app-container item store / mutator call on a container attribute of the application object inside a request-path method"""
+    out = []
+    for f in funcs:
+        if isinstance(f.node, ast.Lambda):
+            continue
+        for d in getattr(f.node, 'decorator_list', []):
+            dn = dotted(d.func) if isinstance(d, ast.Call) else dotted(d)
+            if dn in CACHE_DECOS:
+                out.append(dict(func=f, node=f.node, target=f'memo:{f.fq}', kind='memo'))
+        g = f.cfg
+        for n in walk_shallow(f.node):
+            targets = []
+            if isinstance(n, ast.Assign):
+                targets = n.targets
+            elif isinstance(n, ast.AugAssign):
+                targets = [n.target]
+            for t in targets:
+                base = None
+                kind = None
+                if isinstance(t, ast.Attribute) and isinstance(t.value, ast.Name) and t.value.id not in ('self', 'cls'):
+                    base, kind = t.value, 'attr-assign'
+                elif isinstance(t, ast.Subscript) and isinstance(t.value, ast.Name):
+                    base, kind = t.value, 'item-assign'
+                if base is not None and (f.rd.is_local(base.id)):
+                    ns = g.node_of_stmt(n)
+                    if ns:
+                        cl = f.rd.closure_nodes(base, ns[0])
+                        if any(isinstance(x, ast.Attribute) and x.attr in ('errors_map', 'domain_map') for x in cl) and \
+                                any((isinstance(x, ast.Call) and call_attr(x) == 'get') or isinstance(x, ast.Subscript) for x in cl):
+                            out.append(dict(func=f, node=n, target='config-object:errors_map[...]' + ('.' + t.attr if isinstance(t, ast.Attribute) else '[...]'), kind=kind))
+                # self.<attr>[...] = / self.<attr>.<attr2> on the application object in a request-path method
+                if f.owner_cls is not None and f.owner_cls.name == 'Ombott' and f.name in REQUEST_PATH_APP_METHODS:
+                    if isinstance(t, ast.Subscript):
+                        d0 = dotted(t.value) or ''
+                        if d0.startswith('self.') and d0.count('.') == 1 and d0.split('.')[1] not in ('request', 'response'):
+                            out.append(dict(func=f, node=n, target=f'app-container:{d0}', kind='item-assign'))
+            if isinstance(n, ast.Call) and isinstance(n.func, ast.Attribute) and n.func.attr in MUTATORS:
+                d0 = dotted(n.func.value) or ''
+                if f.owner_cls is not None and f.owner_cls.name == 'Ombott' and f.name in REQUEST_PATH_APP_METHODS \
+                        and d0.startswith('self.') and d0.count('.') == 1 and d0.split('.')[1] not in ('request', 'response'):
+                    out.append(dict(func=f, node=n, target=f'app-container:{d0}', kind=f'call:{n.func.attr}'))
     return out
 
 
